@@ -19,7 +19,7 @@ def _pos_tol(depth: float) -> float:
 class C18(Check):
     pid = "C18"
     level = "exploration"
-    budgets = {"quick": (260, 16), "thorough": (3600, 16)}
+    budgets = {"quick": (300, 16), "thorough": (4500, 16)}
     rule = (
         "Programs: a plain Drillhole under the workspace root with a collar (lattice or arbitrary floats) and a "
         "survey table of 1-8 rows with non-decreasing depth (first depth 0 or >0, repeated depths, azimuths also "
